@@ -1534,6 +1534,16 @@ class AxisInterp:
                           'selector axis unresolved')
             return V('matrix', own=None, flip=base.flip, fresh=True,
                      lay=self._last_mlay)
+        if not isinstance(sl, (ast.Slice, ast.Tuple)):
+            # m[sel]: a selection along the first dimension
+            rows_ax = S if base.flip else O
+            sel = self.ev(sl, env)
+            if sel.k in ('pos', 'pos1', 'per') and sel.ax:
+                self.sink('MATOP', e, 'matrix-subscript',
+                          'ok' if sel.ax == rows_ax else 'bad',
+                          'positions on the %s axis select along the %s '
+                          'dimension (rows) of the matrix'
+                          % (NAMEAX[sel.ax], NAMEAX[rows_ax]))
         return V('matrix', own=None, flip=base.flip, fresh=True)
 
     # ---- calls --------------------------------------------------------
@@ -1541,6 +1551,13 @@ class AxisInterp:
         f = e.func
         name = call_name(e)
         # builtins / numpy that preserve the collection
+        if name in ('np.argsort', 'argsort', 'np.lexsort') and e.args:
+            v = self.ev(e.args[0], env)
+            if v.k in ('ids', 'list', 'order') and v.ax:
+                # the permutation that sorts the ids of an axis: positions
+                # on that axis
+                return V('pos', ax=v.ax, lay=('new',))
+            return TOP
         if name in ('list', 'tuple', 'set', 'sorted', 'np.asarray',
                     'np.array', 'asarray', 'np.concatenate', 'deepcopy',
                     'iter', 'frozenset', 'np.squeeze', 'np.ravel',
